@@ -3,21 +3,21 @@
 import json, os, subprocess
 V = os.path.dirname(os.path.dirname(os.path.abspath(__file__)))
 
-NOTE = ("Trusted base: Go runtime and testing/synctest (virtual clock, quiescence), the harness (plan generator, simulated receiver "
+NOTE = ("Trusted base: Go runtime and testing/synctest (virtual clock, quiescence; four runtime files are overlaid so that the order of same-instant timers, select polling, map seeds and sysmon preemption are seeded or off), the harness (plan generator, simulated receiver "
         "world, gossip transport, disk, reference models), one shared clock per run. Sampling, not enumeration, unless stated.")
 
-SIM = "deterministic simulation: whole real app.New instance in a testing/synctest bubble (virtual clock), simulated receivers/disk, seeded plan generator with fault injection, reference-model oracles over the recorded history, delta-debugging shrinker, replay twice before reporting"
+SIM = "deterministic simulation: whole real app.New instance in a testing/synctest bubble (virtual clock, seeded tie-breaking in the overlaid runtime), simulated receivers/disk, seeded plan generator with fault injection and scheduling holds (named yield sites; one-shot suspensions before critical sections of the lock-instrumented packages), reference-model oracles over the recorded history, delta-debugging shrinker, replay twice before reporting"
 CLAIMED = {
  "C01": dict(category="exploration", ref="5 (C01)", technique=SIM + "; oracle O1 (latest delivered notification lists every eligible alert) in clean windows",
    text="Seeded search over routing trees, alert timelines, silences, inhibit rules, time intervals, receiver fault windows (5xx/4xx/hang/reset/slow), valid and rejected reloads and scheduling holds; the oracle asserts, for every alert that the reference models say was eligible for longer than max(group_wait,group_interval)+flush timeout+6s with a healthy integration, that the latest delivered notification for its group lists it as firing. Sampling of a huge space is the honest level; every reported failure is minimised and replayed."),
  "C02": dict(category="exploration", ref="5 (C02)", technique=SIM + "; crafted replicated versions through Silences.Merge; concurrent Mutes calls parked at yield points; brute-force evaluation of Query() as oracle",
    text="At every probe Silencer.Mutes (with marker) for every label set of the run is compared with a direct evaluation of all silences Query() returns, after arbitrary histories of API create/edit/expire, merged replicated versions (extend/shorten/expire/revive/stale/duplicate/new/two OR-ed sets), GC, alert GC and snapshot reload; concurrent probes parked inside Mutes must be regular (per silence) with respect to the store states of their interval; notifications never list an alert silenced during the whole flush window."),
  "C03": dict(category="exploration", ref="5 (C03)", technique=SIM + "; state-based reference: the existential rule evaluated over the alerts of the same GET response",
-   text="For every alert returned by every GET /api/v2/alerts probe (after each POST and at random instants) the reported inhibition is compared with the existential rule evaluated over the alerts of the same response (labels, end times), including the two-sided exception and missing equal labels; histories refresh sources with unordered end times, resolve, time out, re-fire, with provider GC and the inhibitor's own cache GC inside the run; notifications are checked against probes that bracket their flush window."),
+   text="For every alert returned by every GET /api/v2/alerts probe (after each POST and at random instants) the reported inhibition is compared with the existential rule evaluated over the alerts of the same response (labels, end times), including the two-sided exception and missing equal labels; histories refresh sources with unordered end times, resolve, time out, re-fire, with provider GC and the inhibitor's own cache GC inside the run; notifications are checked against probes that bracket their flush window; right after a reload returns the API is probed again, in half of those runs with the new inhibitor's initial load slowed down."),
  "C04": dict(category="exploration", ref="5 (C04)", technique=SIM + "; per (group, integration) notification sequences over virtual hours to days",
    text="Runs cover 2-30 virtual hours so that several repeat_intervals, nflog GC runs, snapshots, reloads and graceful restarts occur; every notification attempt must be justified against the previous delivered one (new firing alert, new resolved alert with send_resolved, repeat_interval elapsed, or a moment without a firing unsuppressed alert), resolved-only notifications must follow a firing one, and an unchanged healthy group must be re-notified within repeat_interval+group_interval+slack."),
  "C05": dict(category="exploration", ref="5 (C05)", technique=SIM + "; resolves/flaps placed inside in-flight deliveries (slow/hanging receivers, hold before the delete of resolved alerts)",
-   text="Checks that a resolution is reported within group_interval+slack when its premises hold, that send_resolved:false never lists resolved alerts, that nothing is listed resolved while it fired during the whole possible flush window (or firing while resolved), that resolved-only first notifications do not occur, and that re-fired alerts are listed again (O1)."),
+   text="Checks that a resolution is reported within group_interval+slack when its premises hold, that send_resolved:false never lists resolved alerts, that nothing is listed resolved while it fired during the whole possible flush window (or firing while resolved), that resolved-only first notifications do not occur, and that re-fired alerts are listed again (O1); a resolution stays owed across accepted configuration reloads (targeted reloads shortly after explicit resolves)."),
  "C06": dict(category="exploration", ref="5 (C06)", technique=SIM + "; 2-8 ingestion workers with holds in the group creation loop, maintenance sweep and flush; GET /alerts/groups probes",
    text="Every notification must be one group of one route of the reference router, complete with respect to members eligible during the whole flush window; group keys must be a stable function of (matcher path, group labels); GET /alerts/groups must show the model's partition; new and recreated groups must wait group_wait."),
  "C08": dict(category="exploration", ref="5 (C08)", technique=SIM + "; 1-3 real clustered instances over the simulated network with loss/dup/delay/partitions, crashes with power-loss outcomes, restarts, late joins; union-of-instances oracles",
@@ -27,22 +27,22 @@ CLAIMED = {
  "C10": dict(category="exploration", ref="5 (C10)", technique=SIM + "; crafted notification-log entries through Log.Merge in independent orders, local Log calls, GC, restarts; reference log stepped alongside",
    text="After every delivery, local Log call (also against an entry stamped in the local future), GC, restart and full-state exchange, Log.Query of every key on every replica is compared with a reference log (newest unexpired timestamp wins, expired never accepted, receiver data unchanged); the broadcast rule (nothing for known/older/expired data, re-gossip of accepted entries) is checked per merge; after two all-pairs exchanges all replicas hold the newest unexpired entry of every key."),
  "C11": dict(category="fault_enumeration", ref="5 (C11)", technique="deterministic simulation with fault enumeration: real instance on a simulated disk (journalled, power-loss model), crash before every file-system operation of maintenance and shutdown snapshots x every power-loss outcome, restart and compare; loader fed every prefix and bit-flip corruptions",
-   text="For each generated store content, the snapshot pair (silences, notification log) is crashed before each of its mutating file-system operations (and right after completion) with each power-loss outcome (unsynced data lost, kept, torn); the restarted real instance must start and hold, per store, exactly the last completed or the in-progress snapshot. Snapshot -> load round trip and all prefixes of the snapshot files are checked against the originals. Enumeration over crash points is complete per content; contents are sampled."),
+   text="For each generated store content, the snapshot pair (silences, notification log) is crashed before each of its mutating file-system operations (and right after completion) with each power-loss outcome (unsynced data lost, kept, torn); the restarted real instance must start and hold, per store, exactly the last completed or the in-progress snapshot. Snapshot -> load round trip and all prefixes of the snapshot files are checked against the originals. After the comparison the instance runs on, completes a snapshot of its own, is killed and restarted again (second generation: leftovers of the first crash must not leak into later snapshots); after both restarts its mute verdicts are compared with a direct evaluation of the loaded silences. Enumeration over crash points is complete per content; contents are sampled."),
  "C12": dict(category="exploration", ref="5 (C12)", technique=SIM + "; lifecycle state machine stepped with the requests actually sent, compared with GET /silences after every call",
    text="Sequences of create/edit/expire/GC/query over 1-4 silences placed around start, end and end+retention (+-1 ms, +-1 s), with invalid inputs, unknown ids, operator-only matcher edits, oversize replacements and optional count/size limits; ids, times, matchers, comment/creator, state-by-time, once-expired-never-active, presence until end+retention and absence after a GC past it are checked after every call."),
  "C13": dict(category="exploration", ref="5 (C13)", technique=SIM + "; contract model of ingestion (defaulting, overlap merge, visibility) carried as a set of allowed stored versions",
    text="Histories of POST /api/v2/alerts (with/without start/end, overlapping, disjoint, out of order, resolved, re-fired, partly invalid batches) interleaved with provider GC at a per-run interval and GETs; every GET is compared with the set of outcomes the contract allows (three-valued where ranges only touch), plus stability between POSTs: an alert with a future end never vanishes or changes."),
  "C14": dict(category="fault_enumeration", ref="5 (C14)",
-   technique="deterministic simulation: whole app in a synctest bubble; complete enumeration of ingestion-worker release orders via content-keyed holds at a yield point",
-   text="Every release order of the ingestion workers for bursts of 2 and 3 back-to-back updates (all refresh/resolve/re-fire sequences, 2/3/4/8 workers) is executed against the real app (API -> provider -> dispatcher -> group -> webhook); sampled beyond (k=4..5, creation inside the burst). The oracle compares the group's copy (GET /alerts/groups updatedAt) and the following notifications with the last accepted submission. Enumeration is the right level: the schedule space at the one place where order can be lost is small and finite."),
+   technique="deterministic simulation: whole app in a synctest bubble; complete enumeration of ingestion-worker release orders via content-keyed holds at a yield point, of preemption points at store-lock acquisitions (go/ast-instrumented store), and of bursts that find no live aggregation group",
+   text="Every release order of the ingestion workers for bursts of 2 and 3 back-to-back updates (all refresh/resolve/re-fire sequences, 2/3/4/8 workers) is executed against the real app (API -> provider -> dispatcher -> group -> webhook); plus, for bursts of two, preemption of either worker at each of its first six store-lock acquisitions, plus bursts of 2-3 updates of an alert without a live group; sampled beyond (k=4..5, creation inside the burst). The oracle compares the group's copy (GET /alerts/groups updatedAt) and the following notifications with the last accepted submission. Enumeration is the right level: the schedule space at the one place where order can be lost is small and finite."),
  "C15": dict(category="exploration", ref="5 (C15)", technique=SIM + "; the virtual clock is placed on calendar boundaries (DST transitions of 25 IANA zones, month/year ends, 29 February) and a group flushes every 47-127 s for hours to days",
-   text="Interval specifications generated around a focus instant go through the real config parser; every flush instant of a group that would otherwise always notify is judged by a reference calendar written from the documented field semantics: muted flushes must send nothing, others must notify, and GET /alerts/groups must report exactly the muting interval names of the last flush. Only instants the simulated clock visits are judged (the all-instants sweep is a pure-function enumeration outside this technique)."),
+   text="Interval specifications generated around a focus instant go through the real config parser; every flush instant of a group that would otherwise always notify is judged by a reference calendar written from the documented field semantics: muted flushes must send nothing, others must notify, and GET /alerts/groups must report exactly the muting interval names of the last flush. A third of the DST runs sit on transitions at the first/last day of a month; a quarter of the runs have a second group that is destroyed and re-created while the maintenance sweep is suspended (its mute marker must survive). Only instants the simulated clock visits are judged (the all-instants sweep is a pure-function enumeration outside this technique)."),
  "C18": dict(category="exploration", ref="5 (C18)", technique=SIM + "; admission histories with unordered end times x provider GC instants; blocking response writers for the GET-concurrency probe",
    text="Per-name limit: counts of unexpired alerts per name after every POST, re-sends of admitted alerts, admission while room, refusal counter; silence count/size limits with rejected calls leaving state untouched; GET concurrency: `limit` GETs parked in flight, further GETs 503, POST unaffected, counter moved."),
  "C19": dict(category="exploration", ref="5 (C19)", technique=SIM + "; 2-4 real clustered instances (real cluster.Peer + memberlist) over the simulated network with drop/dup/delay/partitions, late joins, a foreign memberlist node injecting garbage; bounded-liveness oracle over recorded per-instance views",
-   text="Bounded liveness after faults stop: every silence/notification-log update accepted anywhere at least 12 push/pull intervals + 40 s ago is held by every live instance in its newest version; oversized updates (reliable channel) and small updates in two-instance clusters arrive within 10 s in a fault-free phase; a late joiner holds its seed peer's state 8 s after joining; valid state offered by a foreign peer next to malformed/unknown parts is merged, garbage corrupts nothing. Gossip itself is probabilistic, so tighter bounds are asserted only where delivery is certain."),
+   text="Bounded liveness after faults stop: every silence/notification-log update accepted anywhere at least 12 push/pull intervals + 40 s ago is held by every live instance in its newest version; oversized updates (reliable channel) and small updates in two-instance clusters arrive within 10 s in a fault-free phase; a late joiner holds its seed peer's state 8 s after joining; valid state offered by a foreign peer next to malformed/unknown parts is merged, garbage corrupts nothing. Relay phase (three instances, loss-free network, one link cut, push/pull minutes away): small silence updates and every notification-log entry must cross the cut through the common neighbour's re-gossip within 10 s, in the version the origin holds. Gossip itself is probabilistic, so tighter bounds are asserted only where delivery is certain."),
  "C20": dict(category="exploration", ref="5 (C20)", technique=SIM + "; per-attempt outcome windows, flush reconstruction from the backoff schedule, notification-log dumps, payload laws",
-   text="Every run injects receiver faults; oracles: recoverable failures are retried within the backoff cap unless the flush deadline intervenes, unrecoverable ones are not retried before the next tick, failed flushes with something new to say are attempted again, resolved alerts survive a failed flush, log entries with firing alerts have a preceding 2xx, siblings of a failing integration still obey dedup and O1, payload status/common labels/annotations/max_alerts/truncatedAlerts laws hold on every request."),
+   text="Every run injects receiver faults; oracles: recoverable failures (5xx, reset, and with a per-attempt webhook timeout also hanging or too slow receivers) are retried within the backoff cap unless the flush deadline intervenes, unrecoverable ones are not retried before the next tick, failed flushes with something new to say are attempted again, resolved alerts survive a failed flush, log entries with firing alerts have a preceding 2xx, siblings of a failing integration still obey dedup and O1, payload status/common labels/annotations/max_alerts/truncatedAlerts laws hold on every request."),
 }
 
 NA = {
